@@ -73,7 +73,7 @@ Init ==
 Next ==
   \E a \in Acts(s) :
      /\ s.nb + Need(s, a) <= MaxBox
-     /\ LET r == Apply(s, a) IN
+     /\ \E r \in {Apply(s, a)} :      \* (evaluated once; an action-level LET is re-evaluated per use)
         /\ s' = r.s
         /\ hist' = Append(hist, Entry(a, r))
         /\ last' = [a |-> a, out |-> r.out, y |-> r.y]
